@@ -324,16 +324,81 @@ def bsearchSpec (a : List Val) (x : Val) : List Int :=
 
 /-! ### the property's side conditions (decidable) -/
 
+mutual
+  /-- every number inside the value (elements, keys, values, at any depth) satisfies `p` -/
+  def allNums (p : Num → Bool) : Val → Bool
+    | .num n => p n
+    | .arr a => allNumsL p a
+    | .obj o => allNumsE p o
+    | _ => true
+  def allNumsL (p : Num → Bool) : List Val → Bool
+    | [] => true
+    | v :: vs => allNums p v && allNumsL p vs
+  def allNumsE (p : Num → Bool) : List (Val × Val) → Bool
+    | [] => true
+    | (k, v) :: es => allNums p k && allNums p v && allNumsE p es
+end
+
 /-- no NaN: neither a float NaN nor a decimal literal that fails to parse -/
 def Num.nanFree : Num → Bool
   | .float f => !F64.isNaN f
   | .dec s => !F64.isNaN (F64.ofDec s)
   | _ => true
 
-/-- no negative zero (the guard of the `_partial` hash-coherence theorems, finding F-08) -/
-def Num.noNegZero : Num → Bool
-  | .float f => f != F64.negZero
-  | .dec s => F64.ofDec s != F64.negZero
+/-- integers are within ±2^53 (where the conversion to `f64` is exact) -/
+def Num.smallInt : Num → Bool
+  | .int i | .big i => decide (i.natAbs ≤ 2 ^ 53)
   | _ => true
+
+/-- floats (and decimal literals) are infinite -/
+def Num.infFloat : Num → Bool
+  | .float f => F64.isInf f
+  | .dec s => F64.isInf (F64.ofDec s)
+  | _ => true
+
+/-- the integer converts to a finite `f64` (|i| < 2^1024 - 2^970); with the repair of F-08b in
+the tree (`Cfg.hugeIntBelowInfinity`) big integers are exempt -/
+def Num.convFinite : Num → Bool
+  | .int i => F64.isFinite (F64.ofInt i)
+  | .big i => Cfg.hugeIntBelowInfinity || F64.isFinite (F64.ofInt i)
+  | _ => true
+
+/-- no negative zero (the guard of the `_partial` hash-coherence theorems, finding F-08); no
+restriction once `Num::hash` normalises zero -/
+def Num.noNegZero : Num → Bool
+  | .float f => Cfg.hashNormalisesZero || f != F64.negZero
+  | .dec s => Cfg.hashNormalisesZero || F64.ofDec s != F64.negZero
+  | _ => true
+
+/-- **NaN-free** values (first side condition of the property) -/
+def NaNFree (v : Val) : Bool := allNums Num.nanFree v
+
+/-- The second side condition ("integers beyond 2^53 in magnitude are compared only among
+integers or against infinities") holds for a group of values in one of two ways. -/
+inductive Mode where
+  /-- all integers are within ±2^53; floats are arbitrary (non-NaN) -/
+  | smallInts
+  /-- integers are arbitrary; all floats are infinite -/
+  | infFloats
+  deriving DecidableEq, Repr
+
+def Num.inMode : Mode → Num → Bool
+  | .smallInts, n => Num.nanFree n && Num.smallInt n
+  | .infFloats, n => Num.nanFree n && Num.infFloat n && Num.convFinite n
+
+/-- the value lies in the domain on which the order theorems are stated: NaN-free, the
+`BigVsFloatGuard` in mode `m`, and (mode `infFloats`, while F-08b is open) no integer whose
+conversion to `f64` overflows -/
+def InDom (m : Mode) (v : Val) : Bool := allNums (Num.inMode m) v
+
+/-- **BigVsFloatGuard** for a group of values that are compared with each other -/
+def BigVsFloatGuard (vs : List Val) : Bool :=
+  vs.all (allNums Num.smallInt) || vs.all (allNums Num.infFloat)
+
+/-- no integer in the value overflows `f64` (guard of the `_partial` order theorems, F-08b) -/
+def NoHugeInt (v : Val) : Bool := allNums Num.convFinite v
+
+/-- no negative zero in the value (guard of the `_partial` hash theorems, F-08) -/
+def NoNegZero (v : Val) : Bool := allNums Num.noNegZero v
 
 end Jaq.C08
